@@ -13,6 +13,7 @@ import (
 	"strconv"
 	"strings"
 	"sync"
+	"sync/atomic"
 	"time"
 
 	"github.com/sdcio/yang-parser/xpath"
@@ -454,6 +455,46 @@ func short(r RunResult) string {
 
 // ---- free-running stress under the race detector ----
 
+// freshExpr builds an expression that is true by construction from a number nobody used before;
+// which selects the function of the library it exercises.
+func freshExpr(which, uniq int) string {
+	k := strconv.Itoa(uniq)
+	mapped := strings.Map(func(r rune) rune { return 'a' + (r - '0') }, k)
+	switch which % 16 {
+	case 0:
+		return "re-match('ab" + k + "', 'ab" + k + "')"
+	case 1:
+		return "not(re-match('zz', 'a" + k + "b*'))"
+	case 2:
+		return "re-match('x" + k + "y', 'x[0-9]+y')"
+	case 3:
+		return "contains(concat('x', '" + k + "'), '" + k + "')"
+	case 4:
+		return "starts-with('" + k + "z', '" + k + "')"
+	case 5:
+		return "substring-before('" + k + ":v', ':') = '" + k + "'"
+	case 6:
+		return "substring-after('v:" + k + "', ':') = '" + k + "'"
+	case 7:
+		return "substring('" + k + "', 2, 99) = '" + k[1:] + "'"
+	case 8:
+		return "translate('" + k + "', '0123456789', 'abcdefghij') = '" + mapped + "'"
+	case 9:
+		return "normalize-space('  " + k + "   q ') = '" + k + " q'"
+	case 10:
+		return "string-length('" + k + "') = " + strconv.Itoa(len(k))
+	case 11:
+		return "number('" + k + "') + 1 = " + strconv.Itoa(uniq+1)
+	case 12:
+		return "floor(" + k + ".5) = " + k + " and ceiling(" + k + ".5) = " + strconv.Itoa(uniq+1) + " and round(" + k + ".5) = " + strconv.Itoa(uniq+1)
+	case 13:
+		return "string(" + k + ") = '" + k + "' and boolean('" + k + "')"
+	case 14:
+		return "a[k='" + k + "']/b = concat('V(CTX/a[k=', concat('" + k + "', ']/b)'))"
+	}
+	return "re-match(concat('" + k + "', vnum), '" + k + "1?2?')"
+}
+
 func stress(args []string) {
 	fs := flag.NewFlagSet("stress", flag.ExitOnError)
 	g := fs.Int("g", 16, "goroutines")
@@ -493,6 +534,7 @@ func stress(args []string) {
 	var omu sync.Mutex
 	nviol := 0
 	report := func(o ConcOut) { omu.Lock(); oenc.Encode(o); nviol++; omu.Unlock() }
+	var nfresh atomic.Int64
 	var wg sync.WaitGroup
 	seed, _ := strconv.Atoi(os.Getenv("VERIF_SEED"))
 	for gi := 0; gi < *g; gi++ {
@@ -503,6 +545,30 @@ func stress(args []string) {
 			for it := 0; it < *n; it++ {
 				x = x*1664525 + 1013904223
 				k := int(x>>8) % len(exprs)
+				if (x>>5)%4 == 1 {
+					// a machine nobody has compiled or run before, over arguments nobody has used before: whatever a
+					// function keeps per argument value (caches, interned strings) is touched for the first time here
+					e := freshExpr(int(x>>10), gi*(*n)+it+1+seed*1000003)
+					m, err, pan := compile(e)
+					if err != nil || pan != nil {
+						report(ConcOut{0, it, "concurrent compilation of " + e + " failed", "fresh-compile", fmt.Sprint(err, pan)})
+						continue
+					}
+					var r RunResult
+					func() {
+						defer func() {
+							if p := recover(); p != nil {
+								r.Err = fmt.Sprint("PANIC ", p)
+							}
+						}()
+						r = plainRun(m)
+					}()
+					if r.Err != "" || !r.B {
+						report(ConcOut{0, it, "first run of " + e + " (true by construction) under concurrency", "fresh-run", short(r)})
+					}
+					nfresh.Add(1)
+					continue
+				}
 				if (x>>3)%4 == 0 {
 					m, err, pan := compile(exprs[k])
 					if err != nil || pan != nil || m.PrintMachine() != listings[k] {
@@ -542,5 +608,5 @@ func stress(args []string) {
 			break
 		}
 	}
-	fmt.Printf("{\"goroutines\":%d,\"iterations\":%d,\"lookups\":%d,\"violations\":%d}\n", *g, *n, len(lookups), nviol)
+	fmt.Printf("{\"goroutines\":%d,\"iterations\":%d,\"lookups\":%d,\"fresh_machines\":%d,\"violations\":%d}\n", *g, *n, len(lookups), nfresh.Load(), nviol)
 }
